@@ -1163,7 +1163,8 @@ func (r *vfRun) acctRemove(opi int, op vfOp, err error) {
 		}
 		f.poisoned = true
 	default:
-		if bad := sh.remove(op.a, b, e); bad != "" {
+		// (the shadow's picture of a poisoned sequence is stale until it is cleared: no verdict then)
+		if bad := sh.remove(op.a, b, e); bad != "" && !f.poisoned {
 			r.l2("remove-shifted-shared-entry", fmt.Sprintf("op %d: %s", opi, bad))
 		}
 		switch {
@@ -1705,6 +1706,105 @@ func vfExhaustive(out *zzverif.Out, depth int, configs []vfConfig) {
 	}
 }
 
+// ------------------------------------------------------------------ EncoderCache (L2 monitor only)
+
+// vfEncoder drives the real EncoderCache (position independent, single sequence) against a tiny
+// shadow: what Get returns per layer is what was last Put there, the mask is nil, EncoderCached()
+// is true exactly when an encoder output was stored by a real (non-reserve) pass and its position
+// has not been removed since, so a caller never reuses the output of a removed input.
+func vfEncoder(out *zzverif.Out, r *zzverif.Rng) {
+	permV := r.Chance(1, 2)
+	backend := &vfBackend{cfg: ml.CacheConfig{PermutedV: permV}, maxNodes: 8192}
+	c := NewEncoderCache()
+	c.Init(backend, ml.DTypeF16, 1, 16, 8)
+	defer c.Close()
+	var trace []string
+	fail := func(kind, detail string) {
+		out.L2(kind, "enc "+strings.Join(trace, " "), detail)
+	}
+	cached, pos := false, int32(0)
+	last := map[int]int{} // layer -> id of the last Put
+	id := 0
+	for step := r.Range(3, 14); step > 0; step-- {
+		ctx := backend.NewContext()
+		switch r.Intn(3) {
+		case 0, 1: // forward with an image at a random index
+			n := r.Range(1, 4)
+			base := int32(r.Range(0, 20))
+			idx := r.Intn(n)
+			reserve := r.Chance(1, 5)
+			b := input.Batch{Positions: make([]int32, n), Sequences: make([]int, n), Multimodal: []input.MultimodalIndex{{Index: idx}}}
+			for i := range b.Positions {
+				b.Positions[i] = base + int32(i)
+			}
+			if err := c.StartForward(ctx, b, reserve); err != nil {
+				fail("encoder-forward-error", err.Error())
+			}
+			put := r.Chance(4, 5)
+			trace = append(trace, fmt.Sprintf("F%d@%d+%d,reserve=%v,put=%v", n, base, idx, reserve, put))
+			if put {
+				id++
+				for l := 0; l < vfLayers; l++ {
+					c.SetLayer(l)
+					data := []float32{float32(id), float32(id), float32(id), float32(id), float32(id), float32(id)}
+					kt, _ := ctx.FromFloatSlice(data, 1, 2, 3)
+					vt, _ := ctx.FromFloatSlice(data, 1, 2, 3)
+					c.Put(ctx, kt, vt)
+					last[l] = id
+				}
+				if !reserve {
+					cached, pos = true, base+int32(idx)
+				}
+			}
+		case 2:
+			bgn := int32(r.Range(0, 22))
+			end := bgn + int32(r.Range(0, 6))
+			if r.Chance(1, 3) {
+				end = math.MaxInt32
+			}
+			trace = append(trace, fmt.Sprintf("R%d-%d", bgn, end))
+			if err := c.Remove(0, bgn, end); err != nil {
+				fail("encoder-remove-error", err.Error())
+			}
+			if cached && pos >= bgn && pos < end {
+				cached = false
+			}
+		}
+		if c.EncoderCached() != cached {
+			fail("encoder-cached-flag", fmt.Sprintf("EncoderCached()=%v, want %v (stored position %d)", c.EncoderCached(), cached, pos))
+		}
+		for l, want := range last {
+			c.SetLayer(l)
+			k, v, m := c.Get(ctx)
+			if m != nil {
+				fail("encoder-mask", "mask is not nil")
+			}
+			for _, t := range []ml.Tensor{k, v} {
+				for _, x := range t.Floats() {
+					if int(x) != want {
+						fail("encoder-stale-output", fmt.Sprintf("layer %d exposes data %v, last Put was %d", l, x, want))
+						break
+					}
+				}
+			}
+		}
+		if !c.CanResume(0, int32(r.Intn(30))) {
+			fail("encoder-canresume", "CanResume is false")
+		}
+		ctx.Close()
+	}
+	out.Count("encoder_histories")
+	// more than one sequence must be refused at Init
+	func() {
+		defer func() {
+			if recover() == nil {
+				fail("encoder-multiseq-accepted", "Init(maxSequences=2) did not panic")
+			}
+		}()
+		NewEncoderCache().Init(backend, ml.DTypeF16, 2, 16, 8)
+	}()
+}
+
 // ------------------------------------------------------------------ entry points
 
 func vfEmit(out *zzverif.Out, cf vfConfig, ops []vfOp) {
@@ -1786,6 +1886,10 @@ func TestVerifC06(t *testing.T) {
 		r := root.Fork()
 		cf, ops := vfGenWHistory(r)
 		vfEmit(out, cf, ops)
+	}
+
+	for i := 0; i < n/10+5; i++ {
+		vfEncoder(out, root.Fork())
 	}
 
 	depth := zzverif.EnvInt("VERIF_EXH_DEPTH", 3)
